@@ -290,3 +290,120 @@ pub fn main_trace(args: &[String]) {
     }
     tw.finish();
 }
+
+/// Replays the edges of the EncFailSafe model into the real EncryptionLayerFailSafeReader (C04, C02):
+/// bytes delivered must be the plaintext at the running position (a flipped data byte excepted, in the mode that
+/// ignores tags), never beyond what the model allows; the hidden state is compared after every read.
+pub fn main_encfs(args: &[String]) {
+    quiet_panics();
+    let runs = read_jsonl(&args[0]);
+    let consts: std::collections::HashMap<&str, u64> = mla::verif::constants().iter().copied().collect();
+    let ch = consts["chunk"] as usize;
+    let cts = ch + 16;
+    let (mut nruns, mut steps, mut hidden, mut drifts) = (0u64, 0u64, 0u64, 0u64);
+    let mut violations: Vec<Value> = vec![];
+    let mut drift_samples: Vec<Value> = vec![];
+    let mut drift_sites: Vec<(usize, usize)> = vec![];
+    let mut samples: Vec<Value> = vec![];
+    for (ri, run) in runs.iter().enumerate() {
+        nruns += 1;
+        let init = &run["init"];
+        let nchunks = geti(&run["par"], "NChunks") as usize;
+        let lastlen = geti(&run["par"], "LastLen") as usize;
+        let l = (nchunks - 1) * ch + lastlen;
+        let plain = cells::content(geti(&run["par"], "seed") as u64, 0, l, Entropy::High);
+        let mut bytes = stacks::write_stream(&plain, Stack { enc: true, comp: false }, 5, &[13, 7], false);
+        let badc = geti(&init["bad"], "c");
+        let mut flipped_plain: Option<usize> = None;
+        if badc >= 0 {
+            let c = badc as usize;
+            let dlen = if c == nchunks - 1 { lastlen } else { ch };
+            if gets(&init["bad"], "region") == "tag" {
+                bytes[c * cts + dlen + 5] ^= 0x20;
+            } else {
+                bytes[c * cts + 2] ^= 0x04;
+                flipped_plain = Some(c * ch + 2);
+            }
+        }
+        let n = geti(&init["present"], "n") as usize;
+        let have = geti(&init["present"], "have") as usize;
+        bytes.truncate((n - 1) * cts + have);
+        let unauth = gets(init, "mode") == "unauth";
+        let st = run["steps"].as_array().unwrap();
+        let mut trace: Vec<Value> = vec![];
+        let mut reader = match guarded(|| stacks::failsafe_over(&bytes[..], Stack { enc: true, comp: false }, unauth)) {
+            Ok(Ok(r)) => r,
+            other => {
+                violations.push(json!({"run": ri, "par": run["par"], "init": init, "step": -1, "kind": "constructor-failed",
+                    "detail": format!("{:?}", other.map(|r| r.map(|_| ()).map_err(|e| format!("{e:?}")))), "steps": st}));
+                continue;
+            }
+        };
+        let mut pos = 0usize; // bytes handed out so far
+        let mut bad: Option<Value> = None;
+        for (si, step) in st.iter().enumerate() {
+            steps += 1;
+            let lab = &step["lab"];
+            let nreq = geti(lab, "n") as usize;
+            let mut buf = vec![0u8; nreq];
+            let got = guarded(|| reader.read(&mut buf));
+            match got {
+                Ok(Ok(k)) => {
+                    trace.push(json!({"n": nreq, "k": k, "model_k": lab["k"]}));
+                    // property level: contiguous plaintext; bytes beyond the end of the plaintext are the unauthenticated tag
+                    for j in 0..k {
+                        let p = pos + j;
+                        if p < l && buf[j] != plain[p] && Some(p) != flipped_plain {
+                            bad = Some(json!({"kind": "wrong-byte", "pos": p}));
+                            break;
+                        }
+                        if p < l && Some(p) == flipped_plain && !unauth && p >= ch {
+                            bad = Some(json!({"kind": "unauthenticated-byte-delivered", "pos": p}));
+                            break;
+                        }
+                    }
+                    pos += k;
+                    let to = &step["to"];
+                    let allowed = (geti(to, "delivered") + geti(to, "extra")) as usize;
+                    if bad.is_none() && pos > allowed {
+                        bad = Some(json!({"kind": "beyond-what-the-model-allows", "delivered": pos, "model": allowed}));
+                    }
+                    if bad.is_none() && k as i64 != geti(lab, "k") {
+                        drifts += 1;
+                        if drift_sites.len() < 5000 { drift_sites.push((ri, si)); }
+                        if drift_samples.len() < 5 { drift_samples.push(json!({"run": ri, "step": si, "why": "count", "model": lab, "got": k, "init": init})); }
+                        break;
+                    }
+                }
+                Ok(Err(e)) => {
+                    trace.push(json!({"n": nreq, "err": e.to_string()}));
+                    // the model never returns an error: truncation and damage end the stream with Ok(0)
+                    bad = Some(json!({"kind": "unexpected-error", "got": e.to_string()}));
+                }
+                Err(p) => bad = Some(json!({"kind": "panic", "got": p})),
+            }
+            if let Some(b) = &bad {
+                violations.push(json!({"run": ri, "par": run["par"], "init": init, "step": si, "kind": b["kind"], "detail": b, "steps": st, "trace": trace}));
+                break;
+            }
+            let mut hs = Vec::new();
+            reader.verif_state(&mut hs);
+            let m: std::collections::HashMap<&str, i64> = hs.iter().copied().collect();
+            let to = &step["to"];
+            hidden += 1;
+            // the counter grows without bound at the end of the stream in the mode that ignores tags (saturated in the model)
+            let cn_ok = m["enc_chunk_no"] == geti(to, "chunkNo") || (unauth && m["enc_chunk_no"] >= geti(to, "chunkNo") && geti(to, "chunkNo") == nchunks as i64 + 1);
+            if !(cn_ok && m["enc_cache_len"] == geti(to, "cacheLen") && m["enc_cache_pos"] == geti(to, "cachePos")) {
+                drifts += 1;
+                if drift_sites.len() < 5000 { drift_sites.push((ri, si)); }
+                if drift_samples.len() < 5 { drift_samples.push(json!({"run": ri, "step": si, "why": "hidden-state", "model": to, "real": hid_to_json(&hs)})); }
+            }
+        }
+        if bad.is_none() && samples.len() < 3 && st.len() > 3 {
+            samples.push(json!({"init": init, "trace": trace}));
+        }
+    }
+    write_json(&args[1], &json!({"runs": nruns, "steps": steps, "hidden_compared": hidden, "drifts": drifts, "drift_samples": drift_samples,
+        "drift_sites": drift_sites, "violations": violations, "samples": samples,
+        "constants": mla::verif::constants().iter().map(|(k, v)| (k.to_string(), json!(v))).collect::<serde_json::Map<_, _>>()}));
+}
